@@ -109,6 +109,9 @@ def run(tier, seed, replay):
     cases = make_cases(rng, tier)
     with open(os.path.join(workdir, EXISTING_REL), "w") as f:      # exists relative to cwd = workdir only
         f.write("// present\n")
+    os.makedirs(os.path.join(workdir, "tmp_with_config"), exist_ok=True)
+    with open(os.path.join(workdir, "tmp_with_config", "rustfmt.toml"), "w") as f:
+        f.write("max_width = 60\nhard_tabs = true\n")
     nruns = 8 if tier != "thorough" else 24
     variants = []
     for k in range(nruns):
@@ -130,6 +133,12 @@ def run(tier, seed, replay):
             env["RUSTFMT"] = "/nonexistent/rustfmt"       # tool-selection variables other programs honour must not matter
         elif k % 4 == 2:
             env["RUSTFMT"] = "/bin/cat"
+        # scratch-directory variables: not an input either (a directory that does not exist, one with a rustfmt.toml in it)
+        if k % 4 == 3:
+            env["TMPDIR"] = "/nonexistent-tmpdir"
+        elif k % 4 == 2:
+            env["TMPDIR"] = os.path.join(workdir, "tmp_with_config")
+            env["TEMP"] = env["TMP"] = env["TMPDIR"]
         cwd = ["/verif", "/", "/tmp", workdir][k % 4]
         variants.append((order, env, cwd))
     first, violations, broken, evals = None, [], [], 0
